@@ -25,8 +25,11 @@ RULE = ('case = generated labelled reference (separable clusters, 2-4 '
         'levels, 5-9 leaves, leaf names in non-alphabetical creation order) '
         'pushed through statistics -> reference markers (direct route, or '
         'p-value mask route in every 3rd case) -> query-marker selection -> '
-        'mapping of the centroid query (declared log2CPM, gene columns '
-        'permuted), bootstrap factor 0.3-1, several seeds, worker counts and '
+        'mapping of the centroid query (declared log2CPM) written in 4-6 '
+        'gene orders (random permutation, reference order, reversed, first '
+        'and last marker kept in place with the genes between them shuffled '
+        '/ two swapped, markers only), hierarchical and flattened, '
+        'bootstrap factor 0.3-1, several seeds, worker counts and '
         'encodings.  A (centroid, node) pair is don\'t-care when the oracle '
         'finds another leaf under the node with correlation >= 1-1e-9 on a '
         'drawn subset, or the centroid constant on it.  Non-trivial = at '
@@ -57,6 +60,141 @@ def gen_cases(tier, seed):
         })
     return cases
 
+
+
+def _map_and_check(spec, rng, mwork, model, means, cols, leaves, pm, stats,
+                   lookup, lk, oname, flatten, counters, dontcare, viol):
+    def bump(k, n=1):
+        counters[k] = counters.get(k, 0) + n
+    qgenes = [cols[i] for i in pm]
+    Xq = np.array([means[lf][pm] for lf in leaves])
+    w = mapworld.World()
+    w.work = mwork
+    for d in ('in', 'out', 'scratch', 'trace', 'cwd'):
+        (w.work / d).mkdir(parents=True)
+    w.model = model
+    w.Xq = Xq
+    w.query_genes = qgenes
+    w.cell_ids = [f'centroid_{lf}' for lf in leaves]
+    w.ref_genes = cols
+    w.stats_path = stats
+    w.marker_path = lookup
+    w.marker_table = lk
+    w.query_path = w.work / 'in' / 'centroids.h5ad'
+    w.drop_level = None
+    mapworld.write_h5ad(w.query_path, Xq, w.cell_ids, qgenes,
+                        encoding=str(rng.choice(['dense', 'csr', 'csc'])))
+    s = dict(mapworld.DEFAULT_SPEC)
+    s.update({'normalization': 'log2CPM', 'flatten': flatten,
+              'chunk_size': int(rng.integers(1, len(leaves) + 2)),
+              'n_processors': int(rng.integers(1, 4)),
+              'n_runners_up': 3,
+              'bootstrap_iteration': spec['iterations'],
+              'bootstrap_factor': spec['factor'],
+              'min_markers': int(rng.integers(1, 8)),
+              'rng_seed': spec['rng_seed'], 'with_csv': False,
+              'with_hdf5': False, 'cloud_safe': False})
+    w.spec = s
+    w.config = mapworld.make_config(w, s)
+    tag = f'[{oname}{",flatten" if flatten else ""}]'
+    r = mapworld.run_world(w, trace=True)
+    if r['exception'] is not None:
+        sig, last = oracles.exception_signature(r['traceback'],
+                                                r.get('stderr'))
+        viol.append({'sig': f'C18:mapping-rejects-chain:{sig}',
+                     'msg': f'mapping failed on files produced by the '
+                            f'pipeline {tag}: {last}'})
+        return None
+    bump('chains_completed')
+    bump('gene_order_' + oname)
+    if flatten:
+        bump('flattened_runs')
+    results = r['json']['results']
+    amb = set()
+    c2 = {}
+    v2, node_genes = vote_oracle.check_votes(
+        w, results, r['trace'], c2, dontcare, check_outputs=True,
+        ambiguous_out=amb, tie=1e-9)
+    viol += [dict(v, sig=v['sig'].replace('C02:', 'C18:vote-'),
+                  msg=tag + ' ' + v['msg']) for v in v2]
+    bump('draws_checked', c2.get('draws_checked', 0))
+    by_id = {rec['cell_id']: rec for rec in results}
+    for lf in leaves:
+        cid = f'centroid_{lf}'
+        rec = by_id[cid]
+        path = model.path_of_leaf(lf)
+        if flatten:
+            lr = rec[model.leaf_level]
+            if len(model.leaves) > 1:
+                if (cid, 'None') in amb:
+                    dontcare['centroid_nodes_with_rival_leaf'] = \
+                        dontcare.get('centroid_nodes_with_rival_leaf', 0) + 1
+                    continue
+                bump('centroid_node_pairs_checked')
+                if lr['assignment'] != lf:
+                    viol.append({
+                        'sig': 'C18:centroid-misassigned',
+                        'msg': f'{tag} centroid of {lf} assigned to '
+                               f'{lr["assignment"]!r}'})
+                    continue
+                if lr['bootstrapping_probability'] != 1.0:
+                    viol.append({
+                        'sig': 'C18:centroid-probability',
+                        'msg': f'{tag} centroid of {lf}: probability '
+                               f'{lr["bootstrapping_probability"]}'})
+                if abs(lr['avg_correlation'] - 1.0) > 1e-9:
+                    viol.append({
+                        'sig': 'C18:centroid-correlation',
+                        'msg': f'{tag} centroid of {lf}: avg_correlation '
+                               f'{lr["avg_correlation"]!r}'})
+            for lv in model.hierarchy:
+                if rec[lv]['assignment'] != path[lv] and \
+                        rec[model.leaf_level]['assignment'] == lf:
+                    viol.append({'sig': 'C18:centroid-misassigned',
+                                 'msg': f'{tag} {lf}: level {lv} -> '
+                                        f'{rec[lv]["assignment"]!r}'})
+                    break
+            continue
+        prev_lv, prev_node = None, None
+        for lv in model.hierarchy:
+            kids = model.children(prev_lv, prev_node)
+            pkey = 'None' if prev_lv is None else f'{prev_lv}/{prev_node}'
+            lr = rec[lv]
+            if len(kids) > 1:
+                if (cid, pkey) in amb:
+                    dontcare['centroid_nodes_with_rival_leaf'] = \
+                        dontcare.get('centroid_nodes_with_rival_leaf', 0) + 1
+                    if lr['assignment'] != path[lv]:
+                        break
+                else:
+                    bump('centroid_node_pairs_checked')
+                    if lr['assignment'] != path[lv]:
+                        viol.append({
+                            'sig': 'C18:centroid-misassigned',
+                            'msg': f'{tag} centroid of {lf} assigned to '
+                                   f'{lv}={lr["assignment"]!r}, own '
+                                   f'ancestor is {path[lv]!r} (markers at '
+                                   f'{pkey}: {node_genes.get(pkey)})'})
+                        break
+                    if lr['bootstrapping_probability'] != 1.0:
+                        viol.append({
+                            'sig': 'C18:centroid-probability',
+                            'msg': f'{tag} centroid of {lf} at {pkey}: '
+                                   f'probability '
+                                   f'{lr["bootstrapping_probability"]}'})
+                    if abs(lr['avg_correlation'] - 1.0) > 1e-9:
+                        viol.append({
+                            'sig': 'C18:centroid-correlation',
+                            'msg': f'{tag} centroid of {lf} at {pkey}: '
+                                   f'avg_correlation '
+                                   f'{lr["avg_correlation"]!r}'})
+            elif lr['assignment'] != path[lv]:
+                viol.append({'sig': 'C18:centroid-misassigned',
+                             'msg': f'{tag} {lf}: trivial level {lv} -> '
+                                    f'{lr["assignment"]!r}'})
+                break
+            prev_lv, prev_node = lv, path[lv]
+    return node_genes
 
 def run_case(spec, work):
     rng = np.random.default_rng(spec['seed'])
@@ -103,7 +241,6 @@ def run_case(spec, work):
         rng.shuffle(leaves)
         perm = rng.permutation(len(cols))
         qgenes = [cols[i] for i in perm]
-        Xq = np.array([means[lf][perm] for lf in leaves])
         lk, _ = pw.run_query_markers(
             refm, qgenes, lookup, tmp, n_processors=spec['n_proc'],
             n_per_utility=spec['n_per_utility'])
@@ -122,96 +259,48 @@ def run_case(spec, work):
                 'inconclusive': 'no marker selected for the root '
                                 '(clusters not separable enough)',
                 'features': None, 'nontrivial': False}
-    # world object for the oracle
-    w = mapworld.World()
-    w.work = work / 'map'
-    for d in ('in', 'out', 'scratch', 'trace', 'cwd'):
-        (w.work / d).mkdir(parents=True)
-    w.model = model
-    w.Xq = Xq
-    w.query_genes = qgenes
-    w.cell_ids = [f'centroid_{lf}' for lf in leaves]
-    w.ref_genes = cols
-    w.stats_path = stats
-    w.marker_path = lookup
-    w.marker_table = lk
-    w.query_path = w.work / 'in' / 'centroids.h5ad'
-    w.drop_level = None
-    mapworld.write_h5ad(w.query_path, Xq, w.cell_ids, qgenes,
-                        encoding=str(rng.choice(['dense', 'csr', 'csc'])))
-    s = dict(mapworld.DEFAULT_SPEC)
-    s.update({'normalization': 'log2CPM', 'flatten': False,
-              'chunk_size': int(rng.integers(1, len(leaves) + 2)),
-              'n_processors': int(rng.integers(1, 4)),
-              'n_runners_up': 3,
-              'bootstrap_iteration': spec['iterations'],
-              'bootstrap_factor': spec['factor'],
-              'min_markers': int(rng.integers(1, 8)),
-              'rng_seed': spec['rng_seed'], 'with_csv': False,
-              'with_hdf5': False, 'cloud_safe': False})
-    w.spec = s
-    w.config = mapworld.make_config(w, s)
-    r = mapworld.run_world(w, trace=True)
-    if r['exception'] is not None:
-        sig, last = oracles.exception_signature(r['traceback'],
-                                                r.get('stderr'))
-        return {'violations': [{'sig': f'C18:mapping-rejects-chain:{sig}',
-                                'msg': f'mapping failed on files produced '
-                                       f'by the pipeline: {last}'}],
-                'counters': counters, 'features': None, 'nontrivial': True}
-    bump('chains_completed')
-    results = r['json']['results']
-    amb = set()
-    c2 = {}
-    v2, node_genes = vote_oracle.check_votes(
-        w, results, r['trace'], c2, dontcare, check_outputs=True,
-        ambiguous_out=amb, tie=1e-9)
-    viol += [dict(v, sig=v['sig'].replace('C02:', 'C18:vote-')) for v in v2]
-    bump('draws_checked', c2.get('draws_checked', 0))
-    by_id = {rec['cell_id']: rec for rec in results}
-    for lf in leaves:
-        cid = f'centroid_{lf}'
-        rec = by_id[cid]
-        path = model.path_of_leaf(lf)
-        prev_lv, prev_node = None, None
-        for lv in model.hierarchy:
-            kids = model.children(prev_lv, prev_node)
-            pkey = 'None' if prev_lv is None else f'{prev_lv}/{prev_node}'
-            lr = rec[lv]
-            if len(kids) > 1:
-                if (cid, pkey) in amb:
-                    dontcare['centroid_nodes_with_rival_leaf'] = \
-                        dontcare.get('centroid_nodes_with_rival_leaf', 0) + 1
-                    if lr['assignment'] != path[lv]:
-                        break
-                else:
-                    bump('centroid_node_pairs_checked')
-                    if lr['assignment'] != path[lv]:
-                        viol.append({
-                            'sig': 'C18:centroid-misassigned',
-                            'msg': f'centroid of {lf} assigned to '
-                                   f'{lv}={lr["assignment"]!r}, own '
-                                   f'ancestor is {path[lv]!r} (markers at '
-                                   f'{pkey}: {node_genes.get(pkey)})'})
-                        break
-                    if lr['bootstrapping_probability'] != 1.0:
-                        viol.append({
-                            'sig': 'C18:centroid-probability',
-                            'msg': f'centroid of {lf} at {pkey}: '
-                                   f'probability '
-                                   f'{lr["bootstrapping_probability"]}'})
-                    if abs(lr['avg_correlation'] - 1.0) > 1e-9:
-                        viol.append({
-                            'sig': 'C18:centroid-correlation',
-                            'msg': f'centroid of {lf} at {pkey}: '
-                                   f'avg_correlation '
-                                   f'{lr["avg_correlation"]!r}'})
-            elif lr['assignment'] != path[lv]:
-                viol.append({'sig': 'C18:centroid-misassigned',
-                             'msg': f'{lf}: trivial level {lv} -> '
-                                    f'{lr["assignment"]!r}'})
-                break
-            prev_lv, prev_node = lv, path[lv]
+    # gene orders in which the centroid query is written: a random
+    # permutation, the reference order, its reverse, and orders that keep
+    # the first and the last marker gene in place while the genes between
+    # them are shuffled / two of them swapped
+    all_markers = set()
+    for k, v in lk.items():
+        if k not in ('metadata', 'log'):
+            all_markers |= set(v)
+    mpos = [i for i, g in enumerate(cols) if g in all_markers]
+    ident = np.arange(len(cols))
+    orders = [('random', perm), ('reference', ident),
+              ('reversed', ident[::-1].copy())]
+    if len(mpos) >= 4:
+        inner = np.arange(mpos[0] + 1, mpos[-1])
+        p2 = ident.copy()
+        p2[inner] = rng.permutation(inner)
+        orders.append(('interior-shuffled', p2))
+        p3 = ident.copy()
+        i1, i2 = [int(x) for x in rng.choice(mpos[1:-1], size=2,
+                                             replace=False)]
+        p3[i1], p3[i2] = p3[i2], p3[i1]
+        orders.append(('two-interior-markers-swapped', p3))
+        # only the marker genes, nothing else, interior shuffled
+        p4 = np.array(mpos)
+        p4[1:-1] = rng.permutation(p4[1:-1])
+        orders.append(('markers-only-interior-shuffled', p4))
+    runs = []
+    for oi, (oname, pm) in enumerate(orders):
+        for flatten in ((False, True) if oi != 0 else (False,)):
+            if flatten and (oi + spec['seed']) % 2 == 0 \
+                    and oname in ('reference', 'reversed'):
+                continue
+            runs.append((oname, pm, flatten))
+    node_genes = {}
+    for ri, (oname, pm, flatten) in enumerate(runs):
+        if len(viol) >= 8:
+            break
+        node_genes = _map_and_check(
+            spec, rng, work / f'map{ri}', model, means, cols, leaves, pm,
+            stats, lookup, lk, oname, flatten, counters, dontcare, viol)
+        if node_genes is None:
+            break
     return {'violations': viol[:8], 'counters': counters,
             'dontcare': dontcare,
             'features': [spec['n_levels'], spec['n_leaves'], spec['factor'],
